@@ -7,7 +7,7 @@ from sa.spec import schema_spec as spec
 from .common import analysis, literals_tested, assigned_values
 
 PROP = "C13"
-TECHNIQUE = "constant propagation over the canonical writer's emitted templates (key whitelist and order, no whitespace, bare integers, primitives in simple form); provenance of names from the parser; walker exhaustiveness against the parser's kinds"
+TECHNIQUE = "constant propagation over the canonical writer's emitted templates partitioned by the kind dispatch (key whitelist and order, no whitespace, bare integers, primitives in simple form); provenance of names from the parser (shared naming rules of C11); walker exhaustiveness; effect analysis restricted to the canonical-form functions (no remembered results)"
 LEVEL_TEXT = (
     "Static analysis of the canonical-form writer: every text it can emit is reconstructed per schema kind from the constant parts of "
     "its write calls; the keys must be an order-respecting subsequence of name, type, fields, symbols, items, values, size with nothing "
